@@ -179,7 +179,7 @@ func (h *simCore) OnFrame(ctx gatewaytypes.Context, f frame.Frame) error {
 		if len(p.reasons) > 0 {
 			reason = p.reasons[0]
 		}
-		if err := h.writeAck(&ctx, c, send, reason, int(send.ClientSeq)); err != nil {
+		if err := h.writeAck(&ctx, c, send, reason, int(send.ClientSeq)); err != nil && h.q.cfg.CloseOnErr {
 			return err
 		}
 		if p.errAt >= 1 {
@@ -256,7 +256,10 @@ func (h *simBatchHandler) OnSendBatch(items []gatewaytypes.SendBatchItem) error 
 		if conns[i] == nil {
 			continue
 		}
-		if err := h.writeAck(&items[i].Context, conns[i], items[i].Frame, reason, int(items[i].Frame.ClientSeq)); err != nil {
+		if err := h.writeAck(&items[i].Context, conns[i], items[i].Frame, reason, int(items[i].Frame.ClientSeq)); err != nil && q.cfg.CloseOnErr {
+			// like the real access handler: a failed write aborts the batch; the
+			// server then closes every session of the batch. Without
+			// CloseOnHandlerError the stub keeps answering the other items.
 			return err
 		}
 	}
